@@ -7,7 +7,8 @@ CONSTANTS Pairs, MaxIdx
 VARIABLE x
 Scenarios == {"get_hit", "get_miss", "put", "find_node", "fn_then_put", "fn_and_put", "put_and_get", "get_get",
               "get_put_diff", "dead_boot", "closest", "put_put_same", "peers", "get_then_put", "three",
-              "putmut_getmut_seq", "putmut_getmut", "put_get_during_store", "putmut_twice_cached"}
+              "putmut_getmut_seq", "putmut_getmut", "put_get_during_store", "putmut_twice_cached",
+              "peers_announce", "peers_sannounce", "speers_announce", "speers_sannounce"}
 Kinds == {"drop", "dup", "late", "slow", "crash"}
 F == [i : 0..MaxIdx, kind : Kinds]
 Plans == {[scenario |-> s, faults |-> <<>>] : s \in Scenarios}
